@@ -47,6 +47,16 @@ def _check(b, scale=1.0, off=0.0):
             for i in range(len(exp)):
                 assert _close(got[i], exp[i]), {"p": b["pts"][i], "got": float(got[i]), "expected": exp[i]}
         guard("shortest-distance" if b["a"] != b["b"] else "degenerate-chord", f1)
+        if b["a"] != b["b"] and b["a"][1] == 0 and b["b"][1] == 0 and off == 0.0:
+            def f1t():
+                # mixed magnitudes: the chord's far end lifted by 1e-200 (its square underflows harmlessly); distances are
+                # unchanged to 200 digits.  Exposes floating-point traps / fallbacks taken on harmless underflow.
+                bt = bb + np.array([0.0, 1e-200])
+                got = lf.shortest_distance_points(P, a, bt)
+                assert len(got) == len(exp), {"len": len(got)}
+                for i in range(len(exp)):
+                    assert _close(got[i], exp[i]), {"p": b["pts"][i], "got": float(got[i]), "expected": exp[i], "chord_end_lifted_by": 1e-200}
+            guard("shortest-distance", f1t)
         if b["a"] != b["b"]:
             expp = [math.sqrt(_q(q)) * scale for q in b["perp2"]]
 
